@@ -15,7 +15,7 @@ import shutil
 from fractions import Fraction
 from urllib.parse import urlsplit, parse_qsl, urlencode
 
-from .core import LEAN
+from .core import LEAN, sh
 from . import designs, e2e
 
 FORMAT_BAD = {"date": "not valid!", "date-time": "not valid!", "uuid": "not valid!", "email": "not valid!", "hostname": "!!",
@@ -738,6 +738,74 @@ def flags_for(i):
     return ["-errors"] if i % 3 == 1 else []
 
 
+def assembly_tie(c):
+    """T3 for the ASSEMBLY of the validation code: `rtvalcode` runs the real codegen.ValidationCode on random
+    attribute trees (HTTP body context) and (a) prints the parsed Go in the canonical form `drv_valid compile`
+    prints for ValCode.compile — the model of the generator; (b) reads the emitted Go on well-typed values
+    around the bounds, compared with the specification's verdict and the model's (`drv_valid judge`)."""
+    if not c.go_build("rtvalcode"):
+        return
+    rc, so, se = sh([os.path.join(designs.BIN, "rtvalcode"), "gen", "-seed", str(c.seed), "-tier", c.tier])
+    ops = [l for l in so.splitlines() if l.strip()]
+    rc1, impl, e1 = c.run_lines([os.path.join(designs.BIN, "rtvalcode"), "run"], "\n".join(ops) + "\n")
+    rc2, model, e2 = c.run_lines([os.path.join(LEAN, ".lake/build/bin/drv_valid")], "\n".join(ops) + "\n")
+    tie = {"name": "codegen.ValidationCode (real generator, emitted Go parsed and read) vs ValCode.compile / violations", "lines": len(ops)}
+    if rc1 != 0 or len(impl) != len(ops) or rc2 != 0 or len(model) != len(ops):
+        c.broken.append({"kind": "tie", "name": tie["name"] + ": a driver failed", "detail": "impl rc=%s %d/%d %s | model rc=%s %d/%d %s" % (
+            rc1, len(impl), len(ops), (e1 or "")[-500:], rc2, len(model), len(ops), (e2 or "")[-500:])})
+        return
+    differ = []
+    for op, a, b in zip(ops, impl, model):
+        c.evaluations += 1
+        if op.startswith("compile "):
+            c.hist("assembly", "attribute trees")
+            for kw in ("nn(", "each(", "kv(", "miss(", "enumn[", "enums[", "fmt", "pat", "runes", "len", "le:", "ge:"):
+                if kw in b:
+                    c.hist("assembly-code", kw.strip("(:["))
+            if a != b:
+                differ.append((op, a, b))
+                if a.startswith(("unrecognised", "panic")):
+                    c.hist("assembly", "emitted code of unknown shape")
+            continue
+        m = re.match(r"spec=(\S+) model=(\S+) hyp=([01]{4})$", b)
+        ma = re.match(r"code=(\S+)$", a)
+        if not m or not ma:
+            if not a.startswith(("unrecognised", "panic")):
+                c.broken.append({"kind": "tie", "name": tie["name"] + ": unreadable verdict", "detail": (a + " | " + b)[:400]})
+                return
+            continue
+        spec, mod, hyp, code = m.group(1), m.group(2), m.group(3), ma.group(1)
+        names = lambda x: set(x.split(":", 1)[1].split(",")) if ":" in x else set()
+        c.hist("assembly-verdict", "%s/%s" % (spec.split(":")[0], code.split(":")[0]))
+        c.count("asm/" + op[:200])
+        inp = {"kind": "assembly", "line": op}
+        if "PANIC-nil-dereference" in code:
+            c.fail("assembly/nil-dereference", "the emitted validation code dereferences a nil pointer on a well-typed value", input=inp, expected=spec, actual=code)
+            continue
+        if code != mod:
+            # the reading of the emitted Go differs from the model's code on this value
+            differ.append((op, a, b))
+        called_s, called_c = spec == "called", code == "called"
+        if called_s != called_c:
+            if hyp[2] == "0" and not called_s and called_c:
+                c.fail("assembly/exclusive-maximum-ignored-when-exclusive-minimum-set", "emitted code lets a value beyond the exclusive maximum through when the attribute "
+                       "also has an exclusive minimum", input=inp, expected=spec, actual=code)
+            elif hyp[3] == "0" and called_s and not called_c:
+                c.fail("assembly/absent-optional-collection-with-min-length-rejected", "emitted code rejects an absent optional array/map with MinLength >= 1 (len(nil) < min)",
+                       input=inp, expected=spec, actual=code)
+            else:
+                c.fail("assembly/gate-differs", "the validation code the generator emits %s a value the design %s" % (
+                    "lets through" if called_c else "rejects", "forbids (%s)" % spec if called_c else "allows"), input=inp, expected=spec, actual=code)
+        elif hyp[2] == "1" and not names(spec) <= names(code):
+            c.fail("assembly/rule-not-reported", "the emitted code does not report %s" % sorted(names(spec) - names(code)), input=inp, expected=spec, actual=code)
+    tie["disagreements"] = len(differ)
+    c.cov["ties"].setdefault("T3", []).append(tie)
+    if differ:
+        op, a, b = differ[0]
+        c.broken.append({"kind": "correspondence", "name": "rtvalcode (codegen.ValidationCode) vs drv_valid (ValCode.compile)",
+                         "first_disagreement": {"input": op[:600], "implementation": a[:600], "model": b[:600]}, "count": len(differ)})
+
+
 def run(c):
     n = 24 if c.tier == "quick" else 240
     per_valid = 2 if c.tier == "quick" else 4
@@ -754,7 +822,9 @@ def run(c):
         "harness/e2ert + glue as for C02; 'transmitted' normalisation: outside a body \"\" and [] are absent (recorded under C02/C03)",
         "gofacts valcode (T2): runs codegen.AttributeValidationCode on one attribute per kind x keyword x pointer cell and parses the emitted Go "
         "(nil guard, compared quantity, operator, bound, error constructor); Props/C04.lean proves these single checks correct; their recursive "
-        "assembly by the generator is not modelled: correspondence is by execution on the generated designs",
+        "assembly by the generator is modelled by ValCode.compile (tie T3 rtvalcode: the real codegen.ValidationCode on random attribute trees in the "
+        "HTTP body context, its Go output parsed by go/parser into statements; the reading of those statements — nil guards, range loops, len, "
+        "comparisons — in rtvalcode exec / ValCode.run is trusted); user types (Validate<Type> calls) are tied by execution only",
     ]
     have = c.go_build("genrun", "gofacts")
     lean_ok = False
@@ -768,6 +838,7 @@ def run(c):
     lean_ok = c.lake_build("drv_valid", what="tie")
     if not (have and lean_ok):
         return
+    assembly_tie(c)
     drv = os.path.join(LEAN, ".lake/build/bin/drv_valid")
     load_format_verdicts(c)
     c.cov["ties"].setdefault("T3", []).append({"name": "format verdicts from the C17 Lean recognisers (drv_fmt)", "strings": len(FORMAT_VERDICTS)})
@@ -853,6 +924,16 @@ def replay(c, obj):
     f = obj["failure"]
     c.go_build("genrun")
     c.lake_build("drv_valid", what="tie")
+    if f["input"].get("kind") == "assembly":
+        c.go_build("rtvalcode")
+        line = f["input"]["line"] + "\n"
+        rc, impl, _ = c.run_lines([os.path.join(designs.BIN, "rtvalcode"), "run"], line)
+        rc, model, _ = c.run_lines([os.path.join(LEAN, ".lake/build/bin/drv_valid")], line)
+        rc, code, _ = c.run_lines([os.path.join(designs.BIN, "rtvalcode"), "run"], "compile " + " ".join(line.split()[1:]) + "\n")
+        print("emitted code (real generator):", impl, "\nspecification / model:", model)
+        m = re.match(r"spec=(\S+) model=(\S+)", model[0]) if model else None
+        bad = not (impl and m) or (impl[0] == "code=called") != (m.group(1) == "called") or "PANIC" in impl[0]
+        return 1 if bad else 0
     work = designs.scratch("C04r")
     b = e2e.build_design(f["input"]["seed"], f["input"]["index"], f["input"].get("flags") or flags_for(f["input"]["index"]), work)
     if b.error:
